@@ -541,44 +541,8 @@ Proof.
   - exact W.
 Qed.
 
-(*ONEPASS*)
-
 (* ================================================================================================ *)
-(* 8. witnesses: the theorems are sensitive to exactly the two repaired defects                      *)
-(* ================================================================================================ *)
-Import Coq.Strings.String.StringSyntax.
-Local Delimit Scope string_scope with string.
-Local Arguments s2n s%string.
-
-(* JS at its placeholder, no CSS placeholder, and the JS text holds "</head>": the code before b234f8a searched the
-   substituted text and put the CSS inside the inserted JS; the current code puts it before the document's </head>. *)
-Definition wit_js : str := s2n "<script>var h='</head>';</script>".
-Definition wit_css : str := s2n "<style>.a{}</style>".
-Definition wit_doc : str := s2n "<head><script name=""JS_PLACEHOLDER""></script></head><body></body>".
-
-Lemma unmasked_search_refuted_lemma :
-  exists js css t,
-    render_doc_unmasked js css t <> spec_doc1 js css t
-    /\ render_doc_unmasked js css t = s2n "<head><script>var h='<style>.a{}</style></head>';</script></head><body></body>"
-    /\ render_doc js css t = s2n "<head><script>var h='</head>';</script><style>.a{}</style></head><body></body>".
-Proof.
-  exists wit_js, wit_css, wit_doc.
-  split; [|split]; [intro H; vm_compute in H; discriminate H | vm_compute; reflexivity | vm_compute; reflexivity].
-Qed.
-
-(* the arithmetic before fa2cce9 fails exactly on "last </body> before first </head>" *)
-Lemma old_offsets_refuted_lemma :
-  exists t css js fh lb,
-    find_ns true true t 0 None None = (fh, lb) /\
-    place_m_old t (Some css) (Some js) fh lb <> Some (weave (ins2 fh lb css js) 0 t) /\
-    place_m t (Some css) (Some js) fh lb = Some (weave (ins2 fh lb css js) 0 t).
-Proof.
-  exists (s2n "AA</body>BB</head>CC"), (s2n "<CSS>"), (s2n "<JS>"), (Some 11), (Some 2).
-  split; [|split]; [vm_compute; reflexivity | intro H; vm_compute in H; discriminate H | vm_compute; reflexivity].
-Qed.
-
-(* ================================================================================================ *)
-(* 9. what the specification's search returns: the FIRST </head> and the LAST </body> of the document *)
+(* 7a. what the specification's search returns: the FIRST </head> and the LAST </body> of the document *)
 (* ================================================================================================ *)
 Section Positions.
   Variable r : kind -> str.
@@ -646,7 +610,230 @@ Section Positions.
 End Positions.
 
 (* ================================================================================================ *)
-(* 10. middleware guard and type round-trip                                                          *)
+(* 7b. position form = THE specification (one pass over the tokens, no offsets)                      *)
+(* ================================================================================================ *)
+Lemma weave_end ins t : forall i, weave ins i t = weave_ne ins i t ++ ins (i + length t).
+Proof.
+  induction t as [|x t IH]; intros i; simpl.
+  - now rewrite Nat.add_0_r.
+  - rewrite IH, <- app_assoc. simpl. repeat f_equal. lia.
+Qed.
+
+Lemma weave_ne_app ins a : forall i b, weave_ne ins i (a ++ b) = weave_ne ins i a ++ weave_ne ins (i + length a) b.
+Proof.
+  induction a as [|x a IH]; intros i b; simpl.
+  - now rewrite Nat.add_0_r.
+  - rewrite IH, <- app_assoc. simpl. repeat f_equal. lia.
+Qed.
+
+Lemma at_pos_eq p x : at_pos (Some p) p x = x.
+Proof. unfold at_pos. now rewrite Nat.eqb_refl. Qed.
+
+Lemma at_pos_ne o p x : o <> Some p -> at_pos o p x = [].
+Proof.
+  unfold at_pos. destruct o as [q|]; [|reflexivity]. intro H.
+  destruct (Nat.eqb_spec q p); [subst; congruence|reflexivity].
+Qed.
+
+Section OnePass.
+  Variable r : kind -> str.
+
+  Lemma subst_cons tk (l : list (N + kind)) : subst r (tk :: l) = text r tk ++ subst r l.
+  Proof. reflexivity. Qed.
+
+  Lemma s_find_bounds wc wj l : forall pos fh lb fh' lb',
+    s_find r wc wj l pos fh lb = (fh', lb') ->
+    (fh' = fh \/ exists p, fh' = Some p /\ pos <= p < pos + length (subst r l)) /\
+    (lb' = lb \/ exists p, lb' = Some p /\ pos <= p < pos + length (subst r l)).
+  Proof.
+    induction l as [|[c|k] l IH]; intros pos fh lb fh' lb' H.
+    - cbn in H. inversion H. auto.
+    - cbn [s_find] in H. destruct (upd wc wj _ pos fh lb) as [fh1 lb1] eqn:E.
+      apply upd_bounds in E as (E1 & E2 & _ & _).
+      apply IH in H as (H1 & H2). rewrite subst_cons, app_length. cbn [text length] in *.
+      split.
+      + destruct H1 as [H1|(p & H1 & Hp)].
+        * subst fh'. destruct E1 as [E1|E1]; [now left|]. right. exists pos. split; [exact E1|lia].
+        * right. exists p. split; [exact H1|lia].
+      + destruct H2 as [H2|(p & H2 & Hp)].
+        * subst lb'. destruct E2 as [E2|E2]; [now left|]. right. exists pos. split; [exact E2|lia].
+        * right. exists p. split; [exact H2|lia].
+    - cbn [s_find tag_here upd] in H. apply IH in H as (H1 & H2). rewrite subst_cons, app_length.
+      split.
+      + destruct H1 as [H1|(p & H1 & Hp)]; [now left|]. right. exists p. split; [exact H1|lia].
+      + destruct H2 as [H2|(p & H2 & Hp)]; [now left|]. right. exists p. split; [exact H2|lia].
+  Qed.
+
+  Lemma body_here_inr k l : body_here r (inr k :: l) = false.
+  Proof. reflexivity. Qed.
+  Lemma head_here_inr k l : head_here r (inr k :: l) = false.
+  Proof. reflexivity. Qed.
+
+  (* no </body> starts later: the candidate survives the rest of the loop *)
+  Lemma s_find_no_later wc wj l : forall pos fh lb,
+    later_body r l = false -> snd (s_find r wc wj l pos fh lb) = lb.
+  Proof.
+    induction l as [|tk l IH]; intros pos fh lb H; [reflexivity|].
+    cbn [later_body] in H. apply orb_false_iff in H as [Hb Hl].
+    cbn [s_find]. unfold body_here in Hb.
+    destruct (tag_here r (tk :: l)) as [[|]|]; cbn [upd]; try discriminate; now apply IH.
+  Qed.
+
+  (* a </body> starts later: the candidate is overwritten by a later position *)
+  Lemma s_find_later wc l : forall pos fh lb,
+    later_body r l = true -> exists p, snd (s_find r wc true l pos fh lb) = Some p /\ pos <= p.
+  Proof.
+    induction l as [|tk l IH]; intros pos fh lb H; [discriminate|].
+    cbn [later_body] in H. cbn [s_find].
+    destruct (later_body r l) eqn:El.
+    - destruct (upd wc true _ pos fh lb) as [fh1 lb1].
+      destruct (IH (pos + length (text r tk)) fh1 lb1 eq_refl) as (p & Hp & Hle). exists p. split; [exact Hp|lia].
+    - rewrite orb_false_r in H. unfold body_here in H.
+      destruct (tag_here r (tk :: l)) as [[|]|]; try discriminate. cbn [upd].
+      rewrite s_find_no_later by exact El. exists pos. split; [reflexivity|lia].
+  Qed.
+
+  Variables css js : str.
+
+  Lemma one_pass_weave (bc bj : bool) l : forall pos fh lb fh' lb' seen,
+    s_find r bc bj l pos fh lb = (fh', lb') ->
+    (forall p, fh = Some p -> p < pos) -> (forall p, lb = Some p -> p < pos) ->
+    (bc = true -> seen = is_some fh) ->
+    weave_ne (ins2 fh' lb' css js) pos (subst r l)
+    = one_pass r (if bc then Some css else None) (if bj then Some js else None) l seen.
+  Proof.
+    induction l as [|[c|k] l IH]; intros pos fh lb fh' lb' seen H Hfh Hlb Hseen; [reflexivity| |].
+    - (* a symbol of the document *)
+      rewrite subst_cons. cbn [text app weave_ne one_pass].
+      cbn [s_find text length] in H.
+      destruct (upd bc bj (tag_here r (inl c :: l)) pos fh lb) as [fh1 lb1] eqn:E.
+      pose proof (s_find_bounds _ _ _ _ _ _ _ _ H) as (B1 & B2).
+      pose proof (upd_bounds _ _ _ _ _ _ _ _ E) as (U1 & U2 & U3 & U4).
+      (* CSS in front of this symbol? *)
+      assert (F1 : at_pos fh' pos css =
+                   match (if bc then Some css else None) with
+                   | Some css => if head_here r (inl c :: l) && negb seen then css else []
+                   | None => [] end).
+      { unfold head_here. destruct bc.
+        - rewrite (Hseen eq_refl).
+          destruct (tag_here r (inl c :: l)) as [[|]|] eqn:T, fh as [p0|]; cbn [upd andb is_some negb] in E;
+            inversion E; subst fh1 lb1; cbn [andb is_some negb].
+          2:{ pose proof (s_find_keeps_head r true bj l (pos + 1) pos lb) as K. rewrite H in K. cbn [fst] in K.
+              subst fh'. apply at_pos_eq. }
+          all: apply at_pos_ne; intro X; subst fh';
+            (destruct B1 as [B1|(p & B1 & Hp)]; [inversion B1; subst; specialize (Hfh _ eq_refl); lia | inversion B1; lia]) || idtac.
+          all: destruct B1 as [B1|(p & B1 & Hp)]; [discriminate B1 | inversion B1; lia].
+        - rewrite (U3 eq_refl) in B1. apply at_pos_ne. intro X. subst fh'.
+          destruct B1 as [B1|(p & B1 & Hp)]; [symmetry in B1; specialize (Hfh _ B1); lia | inversion B1; lia]. }
+      (* JS in front of this symbol? *)
+      assert (F2 : at_pos lb' pos js =
+                   match (if bj then Some js else None) with
+                   | Some js => if body_here r (inl c :: l) && negb (later_body r l) then js else []
+                   | None => [] end).
+      { unfold body_here. destruct bj.
+        - destruct (tag_here r (inl c :: l)) as [[|]|] eqn:T; cbn [upd] in E; inversion E; subst fh1 lb1; cbn [andb].
+          2:{ destruct (later_body r l) eqn:El; cbn [negb].
+              - destruct (s_find_later bc l (pos + 1) (fst (upd bc true (Some Body) pos fh lb)) (Some pos) El) as (p & Hp & Hle).
+                cbn [upd fst] in Hp. rewrite H in Hp. cbn [snd] in Hp. subst lb'. apply at_pos_ne. intro X. inversion X. lia.
+              - pose proof (s_find_no_later bc true l (pos + 1) fh (Some pos) El) as K. rewrite H in K. cbn [snd] in K.
+                subst lb'. apply at_pos_eq. }
+          all: apply at_pos_ne; intro X; subst lb';
+            destruct B2 as [B2|(p & B2 & Hp)]; [symmetry in B2; specialize (Hlb _ B2); lia | inversion B2; lia].
+        - rewrite (U4 eq_refl) in B2. apply at_pos_ne. intro X. subst lb'.
+          destruct B2 as [B2|(p & B2 & Hp)]; [symmetry in B2; specialize (Hlb _ B2); lia | inversion B2; lia]. }
+      unfold ins2 at 1. rewrite F1, F2, <- app_assoc. f_equal. f_equal. cbn [app]. f_equal.
+      replace (S pos) with (pos + 1) by lia.
+      apply (IH (pos + 1) fh1 lb1 fh' lb'); [exact H| | |].
+      + intros p Hp. destruct U1 as [U1|U1]; rewrite U1 in Hp; [specialize (Hfh _ Hp); lia | inversion Hp; lia].
+      + intros p Hp. destruct U2 as [U2|U2]; rewrite U2 in Hp; [specialize (Hlb _ Hp); lia | inversion Hp; lia].
+      + intro Hbc. rewrite (Hseen Hbc). unfold head_here. subst bc.
+        destruct (tag_here r (inl c :: l)) as [[|]|], fh as [p0|]; cbn [upd andb is_some negb] in E; inversion E; reflexivity.
+    - (* a placeholder: its replacement is copied, nothing is inserted inside or in front of it *)
+      rewrite subst_cons, weave_ne_app. cbn [one_pass]. rewrite head_here_inr, body_here_inr. cbn [andb orb].
+      cbn [s_find tag_here upd] in H.
+      pose proof (s_find_bounds _ _ _ _ _ _ _ _ H) as (B1 & B2).
+      rewrite weave_ne_id.
+      + replace (match (if bc then Some css else None) with Some _ => [] | None => [] end) with (@nil N) by (destruct bc; reflexivity).
+        replace (match (if bj then Some js else None) with Some _ => [] | None => [] end) with (@nil N) by (destruct bj; reflexivity).
+        cbn [app]. f_equal. rewrite orb_false_r.
+        apply (IH _ fh lb fh' lb'); [exact H| | |exact Hseen].
+        * intros p Hp. specialize (Hfh _ Hp). lia.
+        * intros p Hp. specialize (Hlb _ Hp). lia.
+      + intros j Hj. unfold ins2.
+        rewrite (at_pos_ne fh'), (at_pos_ne lb'); [reflexivity| |].
+        * intro X. subst lb'. destruct B2 as [B2|(p & B2 & Hp)]; [symmetry in B2; specialize (Hlb _ B2); lia | inversion B2; lia].
+        * intro X. subst fh'. destruct B1 as [B1|(p & B1 & Hp)]; [symmetry in B1; specialize (Hfh _ B1); lia | inversion B1; lia].
+  Qed.
+End OnePass.
+
+Lemma spec_doc_eq_one_pass : forall js css t, spec_doc js css t = spec_doc1 js css t.
+Proof.
+  intros js css t. unfold spec_doc, spec_doc1.
+  set (l := ph_tokens t). set (r := repl js css).
+  destruct (s_find r (negb (has KCss l)) (negb (has KJs l)) l 0 None None) as [fh lb] eqn:E.
+  change (fun p => at_pos fh p css ++ at_pos lb p js) with (ins2 fh lb css js).
+  rewrite weave_end.
+  pose proof (s_find_bounds r _ _ _ _ _ _ _ _ E) as (B1 & B2).
+  replace (ins2 fh lb css js (0 + length (subst r l))) with (@nil N).
+  2:{ unfold ins2. rewrite (at_pos_ne fh), (at_pos_ne lb); [reflexivity| |].
+      - intro X. subst lb. destruct B2 as [B2|(p & B2 & Hp)]; [discriminate B2 | inversion B2; lia].
+      - intro X. subst fh. destruct B1 as [B1|(p & B1 & Hp)]; [discriminate B1 | inversion B1; lia]. }
+  rewrite app_nil_r.
+  rewrite (one_pass_weave r css js _ _ l 0 None None fh lb false E);
+    [| intros p Hp; discriminate Hp | intros p Hp; discriminate Hp | reflexivity].
+  destruct (has KCss l), (has KJs l); reflexivity.
+Qed.
+
+Lemma render_doc_eq_spec_lemma : forall js css t, render_doc js css t = spec_doc1 js css t.
+Proof. intros. now rewrite render_doc_eq_spec_pos, spec_doc_eq_one_pass. Qed.
+
+Lemma render_eq_spec_lemma : forall c ty d, render c ty d = spec_render c ty d.
+Proof.
+  intros c ty d. unfold render, spec_render.
+  destruct (negb (forallb _ (harvest d))); [reflexivity|].
+  destruct (negb (forallb (part_known c) (harvest d))); [reflexivity|].
+  destruct (deps c ty (harvest d)) as [js css].
+  destruct ty; f_equal.
+  - apply render_doc_eq_spec_lemma.
+  - unfold render_body, erase_ph. cbn [is_document andb]. now rewrite subst_empty.
+Qed.
+
+(* ================================================================================================ *)
+(* 8. witnesses: the theorems are sensitive to exactly the two repaired defects                      *)
+(* ================================================================================================ *)
+Import Coq.Strings.String.StringSyntax.
+Local Delimit Scope string_scope with string.
+Local Arguments s2n s%string.
+
+(* JS at its placeholder, no CSS placeholder, and the JS text holds "</head>": the code before b234f8a searched the
+   substituted text and put the CSS inside the inserted JS; the current code puts it before the document's </head>. *)
+Definition wit_js : str := s2n "<script>var h='</head>';</script>".
+Definition wit_css : str := s2n "<style>.a{}</style>".
+Definition wit_doc : str := s2n "<head><script name=""JS_PLACEHOLDER""></script></head><body></body>".
+
+Lemma unmasked_search_refuted_lemma :
+  exists js css t,
+    render_doc_unmasked js css t <> spec_doc1 js css t
+    /\ render_doc_unmasked js css t = s2n "<head><script>var h='<style>.a{}</style></head>';</script></head><body></body>"
+    /\ render_doc js css t = s2n "<head><script>var h='</head>';</script><style>.a{}</style></head><body></body>".
+Proof.
+  exists wit_js, wit_css, wit_doc.
+  split; [|split]; [intro H; vm_compute in H; discriminate H | vm_compute; reflexivity | vm_compute; reflexivity].
+Qed.
+
+(* the arithmetic before fa2cce9 fails exactly on "last </body> before first </head>" *)
+Lemma old_offsets_refuted_lemma :
+  exists t css js fh lb,
+    find_ns true true t 0 None None = (fh, lb) /\
+    place_m_old t (Some css) (Some js) fh lb <> Some (weave (ins2 fh lb css js) 0 t) /\
+    place_m t (Some css) (Some js) fh lb = Some (weave (ins2 fh lb css js) 0 t).
+Proof.
+  exists (s2n "AA</body>BB</head>CC"), (s2n "<CSS>"), (s2n "<JS>"), (Some 11), (Some 2).
+  split; [|split]; [vm_compute; reflexivity | intro H; vm_compute in H; discriminate H | vm_compute; reflexivity].
+Qed.
+
+(* ================================================================================================ *)
+(* 9. middleware guard and type round-trip                                                           *)
 (* ================================================================================================ *)
 Lemma type_preserved_lemma : forall c ty k d k' o, render_any c ty k d = ROk (k', o) -> k' = k.
 Proof.
@@ -665,4 +852,51 @@ Proof.
     - rewrite H. now rewrite andb_false_r.
     - rewrite H1, H2. now rewrite andb_false_r. }
   now rewrite E.
+Qed.
+
+Lemma middleware_html_lemma : forall c r,
+  is_html r = true ->
+  process_response c r =
+  match spec_render c Document (body r) with
+  | ROk o => ROk {| streaming := streaming r; ctype := ctype r; body := o |}
+  | RErr e => RErr e
+  end.
+Proof. intros c r H. unfold process_response. now rewrite H, render_eq_spec_lemma. Qed.
+
+(* ================================================================================================ *)
+(* 10. corollaries that spell out single clauses of the property                                     *)
+(* ================================================================================================ *)
+Lemma fragment_appends_lemma : forall c d out,
+  render c Fragment d = ROk out ->
+  out = erase_ph (erase_markers d) ++ fst (deps c Fragment (harvest d)).
+Proof.
+  intros c d out. rewrite render_eq_spec_lemma. unfold spec_render.
+  destruct (negb (forallb _ (harvest d))); [discriminate|].
+  destruct (negb (forallb (part_known c) (harvest d))); [discriminate|].
+  destruct (deps c Fragment (harvest d)) as [js css]. intro H. inversion H. reflexivity.
+Qed.
+
+Lemma one_pass_nowhere r css_c js_c (l : list (N + kind)) : forall seen,
+  (forall i, tag_here r (skipn i l) = None) -> one_pass r css_c js_c l seen = subst r l.
+Proof.
+  induction l as [|tk l IH]; intros seen H; [reflexivity|].
+  cbn [one_pass]. unfold head_here, body_here. pose proof (H 0) as H0. cbn [skipn] in H0. rewrite H0. cbn [andb].
+  rewrite IH by (intro i; apply (H (S i))).
+  destruct css_c, js_c; reflexivity.
+Qed.
+
+Lemma nothing_without_end_tags_lemma : forall js css t,
+  (forall i, tag_here (repl js css) (skipn i (ph_tokens t)) = None) ->
+  render_doc js css t = subst (repl js css) (ph_tokens t).
+Proof. intros js css t H. rewrite render_doc_eq_spec_lemma. unfold spec_doc1. now apply one_pass_nowhere. Qed.
+
+(* both kinds have a placeholder: tags at the placeholders only, whatever end tags the document has *)
+Lemma one_pass_none r (l : list (N + kind)) : forall seen, one_pass r None None l seen = subst r l.
+Proof. induction l as [|tk l IH]; intro seen; [reflexivity|]. cbn [one_pass]. now rewrite IH. Qed.
+
+Lemma placeholders_only_lemma : forall js css t,
+  has KCss (ph_tokens t) = true -> has KJs (ph_tokens t) = true ->
+  render_doc js css t = subst (repl js css) (ph_tokens t).
+Proof.
+  intros js css t Hc Hj. rewrite render_doc_eq_spec_lemma. unfold spec_doc1. rewrite Hc, Hj. apply one_pass_none.
 Qed.
